@@ -103,6 +103,8 @@ pub fn base_plan(carrier: Carrier) -> Plan {
         scope: format!("{}/us-east-1/service/aws4_request", date8),
         key: refmodel::hmac::chain(SECRET.as_bytes(), &date8, b"us-east-1", b"service").ksigning,
         layout: AuthLayout::default(),
+        post_headers: vec![],
+        query_auth_override: None,
     }
 }
 
